@@ -104,6 +104,7 @@ type env struct {
 	unguarded bool
 	big       bool // concurrent bulk case: file contents are not sent to the model
 	faults    bool // fault region: transient open failures of one source file during a rollup job
+	restarts  bool // restart region: a crashed rollup run is followed by 1-3 restarts, then rollup again
 	armFault  *fkey
 	attempted map[fkey]bool // source files a rollup job may have opened already (reader cached)
 	drainKey  string
@@ -630,6 +631,14 @@ func (e *env) opRollup(h int, cut int, viaStore bool) error {
 			return err
 		}
 		e.c.Branch("crash-cut-" + strconv.Itoa(cut))
+		hasT, hasS := false, false
+		for _, r := range recs {
+			hasT = hasT || r.kind == 'T'
+			hasS = hasS || r.kind == 'S'
+		}
+		if hasT && !hasS {
+			e.c.Branch("crash-after-target-commit-before-source-delete")
+		}
 	} else {
 		os.RemoveAll(e.image)
 	}
@@ -1211,6 +1220,11 @@ func (e *env) storeCase() error {
 		}
 	} else {
 		nh := 1 + rng.Intn(3)
+		if e.restarts {
+			// at least two source families: the later ones get kv family ids that differ from the id of
+			// the (first) family of the target stores
+			nh = 2 + rng.Intn(2)
+		}
 		for len(hs) < nh {
 			hs[pick()] = true
 		}
@@ -1272,6 +1286,11 @@ func (e *env) storeCase() error {
 					cut = rng.Intn(6)
 				}
 			}
+			if e.restarts && rng.Intn(4) != 0 {
+				// die after the target families committed (merge + references), before or at the source
+				// family's delete of the rollup entries
+				cut = 1 + rng.Intn(len(e.tgts))
+			}
 			via := len(e.hours) == 1 && len(e.days) == 1 && cut < 0 && rng.Intn(2) == 0
 			if via {
 				c.Branch("via-Store.ForceRollup")
@@ -1296,7 +1315,20 @@ func (e *env) storeCase() error {
 			if err := e.opRollup(h, cut, via); err != nil {
 				return err
 			}
-			if rng.Intn(2) == 0 { // rollup again immediately
+			if e.restarts && cut >= 0 {
+				// every open of a store replays the manifest and writes a new one that starts with a
+				// snapshot of all families: what restart k writes is what restart k+1 reads
+				n := 1 + rng.Intn(3)
+				for j := 0; j < n; j++ {
+					if err := e.opReopen(); err != nil {
+						return err
+					}
+				}
+				c.Branch(fmt.Sprintf("restarts-after-cut-%d", n))
+				if err := e.opRollup(h, -1, false); err != nil {
+					return err
+				}
+			} else if rng.Intn(2) == 0 { // rollup again immediately
 				c.Branch("rollup-twice")
 				if err := e.opRollup(h, -1, false); err != nil {
 					return err
@@ -1547,6 +1579,9 @@ func (a area) Run(c *core.Ctx) error {
 				err = e.compactionWitness()
 			case i%8 == 4:
 				e.faults = true
+				err = e.storeCase()
+			case i%8 == 6:
+				e.restarts = true
 				err = e.storeCase()
 			case i%8 == 3:
 				e.unguarded = true
